@@ -134,10 +134,36 @@ let run_case v line =
     String.concat " " groups ^ " ; " ^ (if !racy then "racy" else String.concat " " dump) ^ " ; " ^ String.concat " " verdicts
   | _ -> raise Bad
 
+(* wire part:  W <S|I|E>,<in-octets>,<out-octets>,<in-packets>,<out-packets> ... *)
+let run_wire line =
+  match tokens line with
+  | "W" :: (_ :: _ as recs) ->
+    let u64 x = if x <> "" && String.length x <= 20 && String.for_all (fun ch -> ch >= '0' && ch <= '9') x
+                   && (String.length x < 20 || x <= "18446744073709551615") then n_of_decimal x else raise Bad in
+    let parsed = List.map (fun r -> match String.split_on_char ',' r with
+        | [k; a; b; c; d] ->
+          let c4v = { rxb = u64 a; txb = u64 b; rxp = u64 c; txp = u64 d } in
+          let st = (match k with "S" -> 1 | "E" -> 2 | "I" -> 3 | _ -> raise Bad) in
+          (st, c4v)
+        | _ -> raise Bad) recs in
+    let opt = function Some x -> decimal_of_n x | None -> "-" in
+    let toks = List.map (fun (st, c) ->
+        let w = encode_wire (n_of_int st) c in
+        String.concat ":" [decimal_of_n w.w_status; decimal_of_n w.w_in_oct; decimal_of_n w.w_out_oct; opt w.w_in_giga;
+                           opt w.w_out_giga; decimal_of_n w.w_in_pkt; decimal_of_n w.w_out_pkt]) parsed in
+    (* the monitor on what the server reconstructs *)
+    let outs = List.map (fun (st, c) ->
+        let d = decode_wire (encode_wire (n_of_int st) c) in
+        (* cross-check of C09_wire_roundtrip on the extracted code *)
+        if wire_range c && d <> c then failwith "MODELBUG";
+        match st with 1 -> Start | 2 -> Stop d | _ -> Interim (d, true)) parsed in
+    String.concat " " toks ^ " ; mono=" ^ (if nondecreasing c4z outs then "1" else "0")
+  | _ -> raise Bad
+
 let () =
   let lines = read_lines Sys.argv.(1) in
   let v = variant_of (if Array.length Sys.argv > 3 then Sys.argv.(3) else "repaired") in
   List.iter (fun line ->
-      let r = try run_case v line
-        with Bad | Failure _ | Invalid_argument _ -> "badline" in
+      let r = try (if String.length line > 1 && String.sub line 0 2 = "W " then run_wire line else run_case v line)
+        with Failure "MODELBUG" -> "MODELBUG" | Bad | Failure _ | Invalid_argument _ -> "badline" in
       print_endline r) lines
